@@ -1,5 +1,6 @@
 (* C01 - value semantics: mutation never leaks through an alias.
-   Only statements here; every proof is `exact <lemma>` into Rc/Cow_proofs.v / Rc/Heap_proofs.v.
+   Only statements here; every proof is `exact <lemma>` into Rc/Cow_proofs.v, Rc/Heap_proofs.v,
+   Rc/Corollaries_proofs.v.
 
    MACHINE  Rc/Heap.v + Rc/Cow.v : heap of cells with explicit strong counts; clone / drop (recursive
             at 0) / make_mut / in-place write; the statement forms transcribed from eval.rs.
@@ -7,14 +8,18 @@
    StInv st     : every strong count = number of handles to that cell from variables + cell bodies
                   (hence no dangling handle, nothing points to a freed cell)
    Sim st sg    : every variable's handle value stands for (repr) the spec's tree; repr is an
-                  inductive (well-founded) relation, so the reachable heap is acyclic
+                  inductive (well-founded) relation, so the heap reachable from a variable is acyclic
    traces_agree : after every statement: same raised/not-raised flag, StInv, Sim.
+   holds st y t : the machine's variable y stands for the tree t.
 
-   FRAGMENT covered by the theorems below (`frag`): see notes/C01.md.  The full statement
-   ("forallb frag ops" dropped) is the goal; forms outside `frag` are covered by the
-   correspondence run only. *)
+   FRAGMENT covered (`frag`, defined in Rc/Cow_proofs.v; notes/C01.md spells it out): arbitrary nesting, arbitrary
+   index paths without slices, all payload kinds (list, dict with/without default, string, vector, bytes, struct
+   instance); statements  x[p] = e,  x[p] f= e  (append ++ + |. -.),  [y[q] =] pop|remove|consume x[p]  (remove
+   also by slice);  expressions  literal, x[p] (also slices), getter closure, [e..], e{k = e'}, call of a function
+   that mutates its parameter.  NOT covered by the theorems (correspondence only): `every` slice assignment, swap,
+   for-loops, the builtins || and |.. .  The full statement is the same with `forallb frag ops = true` dropped. *)
 From Coq Require Import ZArith List Bool.
-From NV Require Import Rc.ValueSem Rc.Heap Rc.Cow Rc.Heap_proofs Rc.Cow_proofs.
+From NV Require Import Rc.ValueSem Rc.Heap Rc.Cow Rc.Heap_proofs Rc.Cow_proofs Rc.Corollaries_proofs.
 Import ListNotations.
 
 (* the abstraction is a (partial) function of the heap and the handle value *)
@@ -22,27 +27,82 @@ Theorem C01_abs_functional : forall h v t t', repr h v t -> repr h v t' -> t = t
 Proof. exact repr_det. Qed.
 Print Assumptions C01_abs_functional.
 
-(* one statement: the machine and the value semantics stay related *)
+(* inv_preserved + cow_refines_value, one statement: the count invariant is kept and the machine stays
+   related to the value semantics, with the same raised/not-raised outcome *)
 Theorem C01_step_refines : forall s, frag s = true -> forall st sg st' ok,
   StInv st -> Sim st sg -> m_exec st s = (st', ok) ->
   exists sg', exec sg s = (sg', ok) /\ StInv st' /\ Sim st' sg'.
 Proof. exact m_exec_ok. Qed.
 Print Assumptions C01_step_refines.
 
-(* every history, observed after every statement, from the initial state of n null variables *)
+(* every history, observed after every statement (every prefix), from n null variables *)
 Theorem C01_cow_refines_value : forall n ops, forallb frag ops = true ->
   traces_agree (run_cow (init_state n) ops) (run_value (repeat VNull n) ops).
 Proof. intros n ops H. apply run_refines; auto; apply init_ok. Qed.
 Print Assumptions C01_cow_refines_value.
 
-(* non-vacuity: the README's aliased matrix runs through both semantics and they agree *)
+Theorem C01_inv_preserved : forall n ops, forallb frag ops = true ->
+  StInv (final_cow (init_state n) ops) /\ Sim (final_cow (init_state n) ops) (final_value (repeat VNull n) ops).
+Proof. intros n ops H. apply final_refines; auto; apply init_ok. Qed.
+Print Assumptions C01_inv_preserved.
+
+(* in the value semantics a statement changes only the variables it names as targets (all statement forms) *)
+Theorem C01_spec_frame : forall sg s y, ~ In y (writes s) -> nth_error (fst (exec sg s)) y = nth_error sg y.
+Proof. exact exec_frame. Qed.
+Print Assumptions C01_spec_frame.
+
+(* a value copied into another variable is never changed by a later mutation of the original *)
+Theorem C01_alias_unaffected : forall n ops1 x y ops2 t,
+  forallb frag (ops1 ++ Simple (SAssign y [] (ERead x [])) :: ops2) = true ->
+  (forall s, In s ops2 -> ~ In y (writes s)) ->
+  y < n ->
+  nth_error (final_value (repeat VNull n) ops1) x = Some t ->
+  holds (final_cow (init_state n) (ops1 ++ Simple (SAssign y [] (ERead x [])) :: ops2)) y t.
+Proof. exact alias_unaffected. Qed.
+Print Assumptions C01_alias_unaffected.
+
+(* ... and the same for a copy made by any statement (container element, sub-path, update, call result) *)
+Theorem C01_alias_unaffected_gen : forall n ops1 ops2 y t,
+  forallb frag (ops1 ++ ops2) = true ->
+  (forall s, In s ops2 -> ~ In y (writes s)) ->
+  nth_error (final_value (repeat VNull n) ops1) y = Some t ->
+  holds (final_cow (init_state n) (ops1 ++ ops2)) y t.
+Proof. exact alias_unaffected_gen. Qed.
+Print Assumptions C01_alias_unaffected_gen.
+
+(* calling a function that mutates its parameter leaves the argument variable unchanged *)
+Theorem C01_call_leaves_argument : forall n ops x y m t,
+  forallb frag (ops ++ [Simple (SAssign y [] (ECall m (ERead x [])))]) = true ->
+  x <> y ->
+  nth_error (final_value (repeat VNull n) ops) x = Some t ->
+  holds (final_cow (init_state n) (ops ++ [Simple (SAssign y [] (ECall m (ERead x [])))])) x t.
+Proof. exact call_leaves_argument. Qed.
+Print Assumptions C01_call_leaves_argument.
+
+(* a closure shares the variable, not the value it had when the closure was made *)
+Theorem C01_closure_sees_variable_not_value : forall n ops x y t,
+  forallb frag (ops ++ [Simple (SAssign y [] (EGet x))]) = true ->
+  y < n ->
+  nth_error (final_value (repeat VNull n) ops) x = Some t ->
+  holds (final_cow (init_state n) (ops ++ [Simple (SAssign y [] (EGet x))])) y t.
+Proof. exact closure_sees_variable_not_value. Qed.
+Print Assumptions C01_closure_sees_variable_not_value.
+
+(* non-vacuity: the README's aliased matrix, then an op-assign, a pop into another variable, a functional
+   update and a mutating call, run through both semantics; they agree and the history is in the fragment *)
 Example C01_nonvacuous :
   let row := VList [VInt 0; VInt 0; VInt 0] in
   let ops := [Simple (SAssign 1 [] (ELit row));
               Simple (SAssign 2 [] (EList [ERead 1 []; ERead 1 []]));
-              Simple (SAssign 2 [PI 1; PI 2] (ELit (VInt 3)))] in
+              Simple (SAssign 2 [PI 1; PI 2] (ELit (VInt 3)));
+              Simple (SOp 1 [] BAppend (ERead 2 [PI 0]));
+              Simple (SMod (Some (3, [])) 2 (LPop []));
+              Simple (SAssign 4 [] (EUpd (ERead 1 []) (PI 0) (ELit (VInt 7))));
+              Simple (SAssign 4 [PI 1] (ECall (LSet [PI 0] (VInt 9)) (ERead 1 [PI 3])))] in
   forallb frag ops = true /\
-  final_value [VNull; VNull; VNull] ops = [VNull; row; VList [row; VList [VInt 0; VInt 0; VInt 3]]] /\
-  map (abs_val 5 (mheap (final_cow (init_state 3) ops))) (roots (final_cow (init_state 3) ops))
-    = map Some (final_value [VNull; VNull; VNull] ops).
+  final_value (repeat VNull 5) ops =
+    [VNull; VList [VInt 0; VInt 0; VInt 0; row]; VList [row]; VList [VInt 0; VInt 0; VInt 3];
+     VList [VInt 7; VList [VInt 9; VInt 0; VInt 0]; VInt 0; row]] /\
+  map (abs_val 6 (mheap (final_cow (init_state 5) ops))) (roots (final_cow (init_state 5) ops))
+    = map Some (final_value (repeat VNull 5) ops).
 Proof. repeat split; reflexivity. Qed.
